@@ -7202,7 +7202,10 @@ class SFTPServer:
 
         if self._chroot:
             normpath = posixpath.normpath(posixpath.join(b'/', path))
-            return posixpath.join(self._chroot, normpath[1:])
+
+            # normpath() preserves exactly two leading slashes, so strip
+            # them all to keep the result relative to the chroot
+            return posixpath.join(self._chroot, normpath.lstrip(b'/'))
         else:
             return path
 
